@@ -86,8 +86,33 @@ func fiveNodeConfigs(quick bool) []NamedConfig {
 	return out
 }
 
+// ChangeConfigs: root-chain updates that CHANGE the committee (C15's message-level liveness search only).
+// A validator leaves (n5to4), joins (n4to5) or the stake shifts (reweigh) at root height BaseRH+1;
+// in each, one validator is crashed from the start so that every remaining member is needed for +2/3
+// before the change or after it.
+func ChangeConfigs() []NamedConfig {
+	t := eqTimeouts(10)
+	var out []NamedConfig
+	for _, c := range changeBase(t) {
+		out = append(out, c)
+		c.Name += "-gstbump"
+		c.Cfg.GSTBump = true
+		out = append(out, c)
+	}
+	return out
+}
+
+func changeBase(t [7]int) []NamedConfig {
+	return []NamedConfig{
+		{Name: "n5to4-leave4-crash0-rh2", Cfg: Config{Powers: []uint64{1, 1, 1, 1, 1}, NextPowers: []uint64{1, 1, 1, 1, 0}, Crashed: []int{0}, Byz: -1, BaseRH: 2, Timeouts: t}},
+		{Name: "n5to4-leave0-crash1-rh3", Cfg: Config{Powers: []uint64{1, 1, 1, 1, 1}, NextPowers: []uint64{0, 1, 1, 1, 1}, Crashed: []int{1}, Byz: -1, BaseRH: 3, Timeouts: t}},
+		{Name: "n4to5-join4-crash0-rh2", Cfg: Config{Powers: []uint64{1, 1, 1, 1, 0}, NextPowers: []uint64{1, 1, 1, 1, 1}, Crashed: []int{0}, Byz: -1, BaseRH: 2, Timeouts: t}},
+		{Name: "n4-reweigh1111to3211-crash3-rh2", Cfg: Config{Powers: []uint64{1, 1, 1, 1}, NextPowers: []uint64{3, 2, 1, 1}, Crashed: []int{3}, Byz: -1, BaseRH: 2, Timeouts: t}},
+	}
+}
+
 func ConfigByName(name string) (NamedConfig, bool) {
-	for _, c := range append(append(allConfigs(), fiveNodeConfigs(false)...), NegativeControl()) {
+	for _, c := range append(append(append(allConfigs(), fiveNodeConfigs(false)...), NegativeControl()), ChangeConfigs()...) {
 		if c.Name == name {
 			return c, true
 		}
@@ -310,7 +335,7 @@ func Main(id string) {
 		devSearch(r, cfgs, cov, *cfgFlag)
 	case "C15":
 		livenessPass(r, states, cov)
-		devLiveness(r, cfgs, cov, *cfgFlag)
+		devLiveness(r, append(append([]NamedConfig{}, cfgs...), ChangeConfigs()...), cov, *cfgFlag)
 	case "C14":
 		evidencePass(r, states, cov)
 	}
